@@ -143,7 +143,7 @@ Proof.
   unfold add_context. intros Hb Hc. destruct (mem_str (c_name c) (bag_names b)); [discriminate|].
   intros E. injection E as <-. intros x Hx. apply in_app_or in Hx. destruct Hx as [Hx|[<-|[]]]; [apply Hb, Hx|apply local_ok_none, Hc].
 Qed.
-Lemma convert_context_provided y ib f c m : convert_context y ib f = Ok (c, m) -> c_provided c = None.
+Lemma convert_context_provided y ib f root c m : convert_context y ib f root = Ok (c, m) -> c_provided c = None.
 Proof.
   unfold convert_context. intros H.
   repeat match type of H with rbind ?X _ = _ => destruct X; cbn [rbind] in H; try discriminate end.
@@ -156,23 +156,23 @@ Proof.
   unfold add_modules. intros Hk HF.
   apply (fold_rbind_inv bag_local_ok
            (fun b0 y => fold_left (fun acc c => rbind acc (fun b1 =>
-                          rbind (convert_module bd y c is_binary (ld_file d) defaults) (add_module b1)))
+                          rbind (convert_module bd y c is_binary (ld_file d) (ld_root d) defaults) (add_module b1)))
                           (contexts_of (ym_context y)) (Ok b0))) with (l := mods) (acc := Ok b); [|intros a E; injection E as <-; exact Hk|exact HF].
   intros a y a' Ha HF2.
   apply (fold_rbind_inv bag_local_ok
-           (fun b1 c => rbind (convert_module bd y c is_binary (ld_file d) defaults) (add_module b1)))
+           (fun b1 c => rbind (convert_module bd y c is_binary (ld_file d) (ld_root d) defaults) (add_module b1)))
     with (l := contexts_of (ym_context y)) (acc := Ok a); [|intros a0 E; injection E as <-; exact Ha|exact HF2].
-  intros a0 c a1 Ha0 E. destruct (convert_module bd y c is_binary (ld_file d) defaults) as [m| | |]; cbn [rbind] in E; try discriminate.
+  intros a0 c a1 Ha0 E. destruct (convert_module bd y c is_binary (ld_file d) (ld_root d) defaults) as [m| | |]; cbn [rbind] in E; try discriminate.
   exact (add_module_local _ _ _ Ha0 E).
 Qed.
 
 (* the bag just before merge_provides *)
 Definition pre_merge (t : ytree) (pf bd : str) : res bag :=
-  rbind (load_files (S (S (length t * 8))) t [(pf, None)] 0 []) (fun '(docs, _) =>
+  rbind (load_files (load_fuel t) t [(pf, (None, None))] 0 []) (fun '(docs, _) =>
   rbind (fold_left (fun acc d => rbind acc (fun '(b, cms) =>
            fold_left (fun acc lb => rbind acc (fun '(b, cms) =>
               fold_left (fun acc y => rbind acc (fun '(b, cms) =>
-                 rbind (convert_context y (snd lb || yc_is_builder y) (ld_file d)) (fun '(c, m) =>
+                 rbind (convert_context y (snd lb || yc_is_builder y) (ld_file d) (ld_root d)) (fun '(c, m) =>
                  rbind (add_context b c) (fun b' => Ok (b', cms ++ [m])))))
                 (odflt [] (fst lb)) (Ok (b, cms))))
              [(d_contexts (ld_doc d), false); (d_builders (ld_doc d), true)] (Ok (b, cms))))
@@ -197,7 +197,7 @@ Definition pre_merge (t : ytree) (pf bd : str) : res bag :=
 Lemma load_is_merge t pf bd : load t pf bd = rmap merge_provides (pre_merge t pf bd).
 Proof.
   unfold load, pre_merge, rmap.
-  destruct (load_files _ t [(pf, None)] 0 []) as [[docs fs]| | |]; cbn [rbind]; try reflexivity.
+  destruct (load_files _ t [(pf, (None, None))] 0 []) as [[docs fs]| | |]; cbn [rbind]; try reflexivity.
   match goal with |- rbind ?X _ = _ => destruct X as [[b0 cms]| | |] end; cbn [rbind]; try reflexivity.
   destruct (finalize b0); cbn [rbind]; try reflexivity.
   match goal with |- rbind ?X _ = _ => destruct X end; cbn [rbind]; try reflexivity.
@@ -207,7 +207,7 @@ Qed.
 Theorem pre_merge_local t pf bd b : pre_merge t pf bd = Ok b -> bag_local_ok b.
 Proof.
   unfold pre_merge. intros HL.
-  destruct (load_files _ t [(pf, None)] 0 []) as [[docs fs]| | |]; cbn [rbind] in HL; try discriminate.
+  destruct (load_files _ t [(pf, (None, None))] 0 []) as [[docs fs]| | |]; cbn [rbind] in HL; try discriminate.
   match type of HL with rbind ?X _ = _ => destruct X as [[b0 cms]| | |] eqn:E1 end; cbn [rbind] in HL; try discriminate.
   assert (K0 : bag_local_ok b0).
   { refine (fold_rbind_inv (fun p : bag * list module => bag_local_ok (fst p)) _ _ docs (Ok ([], [])) (b0, cms) _ E1);
@@ -219,9 +219,9 @@ Proof.
     refine (fold_rbind_inv (fun p : bag * list module => bag_local_ok (fst p)) _ _ _ (Ok (bb, cmsb)) (bb', cmsb') _ Hlb);
       [|intros a E; injection E as <-; exact Hb].
     intros [bc cmsc] y [bc' cmsc'] Hc Hy. cbn [fst] in *.
-    destruct (convert_context y (snd lb || yc_is_builder y) (ld_file d)) as [[c m]| | |] eqn:Ecc; cbn [rbind] in Hy; try discriminate.
+    destruct (convert_context y (snd lb || yc_is_builder y) (ld_file d) (ld_root d)) as [[c m]| | |] eqn:Ecc; cbn [rbind] in Hy; try discriminate.
     destruct (add_context bc c) as [bn| | |] eqn:Ea; cbn [rbind] in Hy; try discriminate.
-    injection Hy as <- _. exact (add_context_local _ _ _ Hc (convert_context_provided _ _ _ _ _ Ecc) Ea). }
+    injection Hy as <- _. exact (add_context_local _ _ _ Hc (convert_context_provided _ _ _ _ _ _ Ecc) Ea). }
   destruct (finalize b0) as [b1| | |] eqn:Ef; cbn [rbind] in HL; try discriminate.
   pose proof (finalize_local _ _ K0 Ef) as K1.
   match type of HL with rbind ?X _ = _ => destruct X as [b2| | |] eqn:E2 end; cbn [rbind] in HL; try discriminate.
@@ -312,20 +312,20 @@ Proof.
   unfold add_modules. intros HF.
   apply (fold_rbind_inv (fun x => parents_of x = parents_of b)
            (fun b0 y => fold_left (fun acc c => rbind acc (fun b1 =>
-                          rbind (convert_module bd y c is_binary (ld_file d) defaults) (add_module b1)))
+                          rbind (convert_module bd y c is_binary (ld_file d) (ld_root d) defaults) (add_module b1)))
                           (contexts_of (ym_context y)) (Ok b0))) with (l := mods) (acc := Ok b); [|intros a E; injection E as <-; reflexivity|exact HF].
   intros a y a' Ha HF2.
   apply (fold_rbind_inv (fun x => parents_of x = parents_of b)
-           (fun b1 c => rbind (convert_module bd y c is_binary (ld_file d) defaults) (add_module b1)))
+           (fun b1 c => rbind (convert_module bd y c is_binary (ld_file d) (ld_root d) defaults) (add_module b1)))
     with (l := contexts_of (ym_context y)) (acc := Ok a); [|intros a0 E; injection E as <-; exact Ha|exact HF2].
-  intros a0 c a1 Ha0 E. destruct (convert_module bd y c is_binary (ld_file d) defaults) as [m| | |]; cbn [rbind] in E; try discriminate.
+  intros a0 c a1 Ha0 E. destruct (convert_module bd y c is_binary (ld_file d) (ld_root d) defaults) as [m| | |]; cbn [rbind] in E; try discriminate.
   rewrite (add_module_parents _ _ _ E). exact Ha0.
 Qed.
 
 Theorem pre_merge_wf t pf bd b : pre_merge t pf bd = Ok b -> wf_parents b.
 Proof.
   unfold pre_merge. intros HL.
-  destruct (load_files _ t [(pf, None)] 0 []) as [[docs fs]| | |]; cbn [rbind] in HL; try discriminate.
+  destruct (load_files _ t [(pf, (None, None))] 0 []) as [[docs fs]| | |]; cbn [rbind] in HL; try discriminate.
   match type of HL with rbind ?X _ = _ => destruct X as [[b0 cms]| | |] end; cbn [rbind] in HL; try discriminate.
   destruct (finalize b0) as [b1| | |] eqn:Ef; cbn [rbind] in HL; try discriminate.
   pose proof (finalize_wf _ _ Ef) as W1.
